@@ -135,7 +135,9 @@ def variantIdx : List Nat → Nat → Nat → Option Nat
 it is inapplicable (no API call exists). -/
 def child (s : Shape) (st : Step) (base : Nat) (bs : List Nat) : Except Err (Shape × Nat) :=
   match s, st with
-  | .struct sized fs, .field i => fieldBase fs i (base + Fixed.sizeList sized) bs
+  | .struct sized fs, .field i =>
+    -- the generated accessor `f<i>` exists only for `i < #fields`
+    if i < fs.length then fieldBase fs i (base + Fixed.sizeList sized) bs else .error .bad
   | .ulist e, .elem i =>
     let len := rd32 bs (base + 4)
     if i < len then .ok (e, base + 8 + len * 4 + 4 + rd32 bs (base + 8 + i * 4))
